@@ -529,6 +529,28 @@ def x3(ctx):
         ordinal[base] = ordinal.get(base, 0) + 1
         key = base if ordinal[base] == 1 else '%s#%d' % (base, ordinal[base])
         obs.append(Ob('X3', key, ok, why, ev.fn.loc(ev.node), wit))
+    # a multi-column order is one lexicographic order: every ORDER BY term of a statement on Cache has the same
+    # direction as the first (the row-value cursor `(key, raw) < (?, ?)` only matches such an order; a first-row query
+    # with mixed directions starts the scan in the middle of a group of equal keys)
+    mixed = {}
+    for f in core_entries(ctx):
+        if f.cls != 'Cache':
+            continue
+        for p in ctx.paths(f, 'default'):
+            for ev in sql_events(p.trace, 'select', 'Cache'):
+                st = ev.d['stmt']
+                if len(st.order) >= 2 and {sqlmod.colname(e) for e, _ in st.order} == {'key', 'raw'}:
+                    dirs = {d for _, d in st.order}
+                    k = (f.qual, ev.line, ev.node.col_offset, tuple(d for _, d in st.order))
+                    mixed.setdefault(k, (len({str(d) for d in dirs}) == 1 or any('⟦' in str(d) for d in dirs), ev, f))
+    for k in sorted(mixed, key=lambda k: (k[0], k[1], k[2], str(k[3]))):
+        okm, ev, f = mixed[k]
+        key = '%s/order-one-direction:%s' % (f.qual.replace('core.', ''), ','.join(str(d) for d in k[3]))
+        if any(o.key == key for o in obs):
+            key += '#%d' % (sum(1 for o in obs if o.key.startswith(key)) + 1)
+        obs.append(Ob('X3', key, okm, 'the ORDER BY terms of one statement have different directions %s: the scan does '
+                      'not follow the lexicographic (key, raw) order its cursor assumes, so among rows with equal keys some '
+                      'are skipped' % (k[3],), ev.fn.loc(ev.node)))
     return obs
 
 
